@@ -2,8 +2,10 @@ package govc
 
 import (
 	"fmt"
+	"go/ast"
 	"go/types"
 	"sort"
+	"strings"
 
 	"bngvc/smt"
 )
@@ -99,8 +101,27 @@ func (fv *funcVerifier) havocAll(st *State) {
 	if !fv.inLoopHavoc {
 		fv.wildHavoc = true
 	}
+	// Objects of a type declared inside this function that never leave it (no value mentioning
+	// the type is passed to any call) cannot be reached by a callee or another thread: their
+	// field and element memories survive a havoc that is not the function's own loop havoc.
+	keep := map[string]smt.Term{}
+	if !fv.inLoopHavoc && len(fv.localKeep) > 0 {
+		var ks []string
+		for k := range fv.heapSorts {
+			ks = append(ks, k)
+		}
+		sort.Strings(ks)
+		for _, k := range ks {
+			if fv.isLocalTypeKey(k) {
+				keep[k] = fv.heapGet(st, k)
+			}
+		}
+	}
 	st.heap = map[string]smt.Term{}
 	st.base = fv.newBase()
+	for k, v := range keep {
+		st.heap[k] = v
+	}
 	nf := fv.c.Fresh("frontier", smt.Int)
 	fv.assume(st, smt.Ge(nf, st.frontier))
 	st.frontier = nf
@@ -213,4 +234,113 @@ func (fv *funcVerifier) alloc(st *State, hint string) smt.Term {
 	fv.assumeGlobal(smt.Eq(r, smt.Add(st.frontier, smt.IntLit(1))))
 	st.frontier = r
 	return r
+}
+
+// isLocalTypeKey reports whether a heap key is the element memory or a field array of a
+// function-local, non-escaping struct type.
+func (fv *funcVerifier) isLocalTypeKey(k string) bool {
+	if strings.HasPrefix(k, "mem:") {
+		return fv.localKeep[strings.TrimPrefix(k, "mem:")]
+	}
+	if i := strings.LastIndex(k, "."); i > 0 {
+		return fv.localKeep[k[:i]]
+	}
+	return false
+}
+
+// computeLocalTypes returns the sort names of struct types declared inside the function body
+// of which no value (directly, or inside a slice, pointer, array, map or struct) is ever passed
+// as an argument to a call (conversions and builtins excepted).
+func (fv *funcVerifier) computeLocalTypes() map[string]bool {
+	out := map[string]bool{}
+	if fv.fi.Decl == nil || fv.fi.Decl.Body == nil {
+		return out
+	}
+	var locals []*types.Named
+	ast.Inspect(fv.fi.Decl.Body, func(n ast.Node) bool {
+		if ts, ok := n.(*ast.TypeSpec); ok {
+			if tn, ok := fv.info.Defs[ts.Name].(*types.TypeName); ok {
+				if nm, ok := tn.Type().(*types.Named); ok {
+					if _, isStruct := nm.Underlying().(*types.Struct); isStruct {
+						locals = append(locals, nm)
+					}
+				}
+			}
+		}
+		return true
+	})
+	if len(locals) == 0 {
+		return out
+	}
+	var mentions func(t types.Type, nm *types.Named, depth int) bool
+	mentions = func(t types.Type, nm *types.Named, depth int) bool {
+		if t == nil || depth > 6 {
+			return false
+		}
+		if n, ok := t.(*types.Named); ok {
+			if n == nm {
+				return true
+			}
+			return mentions(n.Underlying(), nm, depth+1)
+		}
+		switch u := t.(type) {
+		case *types.Pointer:
+			return mentions(u.Elem(), nm, depth+1)
+		case *types.Slice:
+			return mentions(u.Elem(), nm, depth+1)
+		case *types.Array:
+			return mentions(u.Elem(), nm, depth+1)
+		case *types.Map:
+			return mentions(u.Key(), nm, depth+1) || mentions(u.Elem(), nm, depth+1)
+		case *types.Chan:
+			return mentions(u.Elem(), nm, depth+1)
+		case *types.Struct:
+			for i := 0; i < u.NumFields(); i++ {
+				if mentions(u.Field(i).Type(), nm, depth+1) {
+					return true
+				}
+			}
+		}
+		return false
+	}
+	escaped := map[*types.Named]bool{}
+	ast.Inspect(fv.fi.Decl.Body, func(n ast.Node) bool {
+		switch x := n.(type) {
+		case *ast.CallExpr:
+			if tv, ok := fv.info.Types[x.Fun]; ok && tv.IsType() {
+				return true
+			}
+			if id, ok := ast.Unparen(x.Fun).(*ast.Ident); ok {
+				if _, isB := fv.info.Uses[id].(*types.Builtin); isB {
+					return true
+				}
+			}
+			for _, a := range x.Args {
+				for _, nm := range locals {
+					if mentions(fv.info.TypeOf(a), nm, 0) {
+						escaped[nm] = true
+					}
+				}
+			}
+		case *ast.SendStmt, *ast.GoStmt:
+			for _, nm := range locals {
+				escaped[nm] = true
+			}
+		case *ast.ReturnStmt:
+			for _, r := range x.Results {
+				for _, nm := range locals {
+					if mentions(fv.info.TypeOf(r), nm, 0) {
+						escaped[nm] = true
+					}
+				}
+			}
+		}
+		return true
+	})
+	for _, nm := range locals {
+		if !escaped[nm] {
+			out[fv.so.structName(nm)] = true
+		}
+	}
+	return out
 }
